@@ -130,13 +130,26 @@ def clamp(v, ty):
     return (r[0], r[1], None, False)
 
 
+def _num(x):
+    if x is None:
+        return "∞"
+    if abs(x) < 10**6:
+        return str(x)
+    a = abs(x)
+    sign = "-" if x < 0 else ""
+    if a & (a - 1) == 0:
+        return "%s2^%d" % (sign, a.bit_length() - 1)
+    if (a + 1) & a == 0:
+        return "%s2^%d-1" % (sign, a.bit_length())
+    return "%s~2^%d" % (sign, a.bit_length())
+
+
 def show(v):
     if v is None:
         return "⊥"
     if v[2] is not None and len(v[2]) <= 8:
         return "{%s}%s" % (",".join(str(x) for x in sorted(v[2])), "p" if v[3] else "")
-    f = lambda x: "∞" if x is None else (str(x) if abs(x) < 10**6 else "%s2^%d" % ("-" if x < 0 else "", abs(x).bit_length()))
-    return "[%s,%s]%s" % (f(v[0]), f(v[1]), "p" if v[3] else "")
+    return "[%s,%s]%s" % (_num(v[0]), _num(v[1]), "p" if v[3] else "")
 
 
 # ------------------------------------------------------------------ arithmetic
@@ -1294,3 +1307,52 @@ class Program:
                 break
         self.collect_calls = False
         return self
+
+
+def load_program(F):
+    """Program for the facts F, analysed; cached next to the facts (keyed by the hash of this file)."""
+    import hashlib
+    import os
+    import pickle
+    with open(__file__, "rb") as fh:
+        h = hashlib.sha256(fh.read()).hexdigest()[:16]
+    path = os.path.join(F.dir, "mir-%s.pickle" % h)
+    if os.path.exists(path):
+        try:
+            with open(path, "rb") as fh:
+                return pickle.load(fh)
+        except Exception:
+            pass
+    P = Program(F.mono()).run()
+    try:
+        tmp = path + ".%d.tmp" % os.getpid()
+        with open(tmp, "wb") as fh:
+            pickle.dump(P, fh, protocol=pickle.HIGHEST_PROTOCOL)
+        os.replace(tmp, path)
+    except Exception:
+        pass
+    return P
+
+
+def narrowing_casts(P, pred):
+    """[(fn, block index, statement, source value, source type, target type)] for every int-to-int cast in functions
+    selected by pred(fn) whose source value is not proved to fit the target type."""
+    out = []
+    for f in sorted(P.fns.values(), key=lambda f: f.path):
+        if not pred(f):
+            continue
+        for bi, b in enumerate(f.blocks):
+            if b["cleanup"] or f.in_states[bi] is None:
+                continue
+            st = f.in_states[bi].copy()
+            for s in b["s"]:
+                if s["k"] == "assign":
+                    rv = s["rv"]
+                    if rv["k"] == "cast" and rv["ck"] == "int2int" and rv["to"] in INT:
+                        v, _ = f.operand(st, rv["a"])
+                        a = rv["a"]
+                        p = a.get("cp") or a.get("mv")
+                        sty = a["c"].get("ty") if "c" in a else (f.key_ty(pkey(p)) if p and pkey(p) else None)
+                        out.append((f, bi, s, v, sty, rv["to"], fits(v, rv["to"])))
+                    f.assign(st, s)
+    return out
